@@ -178,7 +178,7 @@ def mw_get_target(next_, posargs_, target_file, target_format, spec_file, spec_f
         try:
             with open(spec_file) as f:
                 spec_text = f.read()
-        except OSError as ose:
+        except (OSError, UnicodeError) as ose:  # (missing, unreadable or not text at all)
             raise UsageError(f'could not read spec file {spec_file!r}, got: {ose}')
 
     if not spec_text:
@@ -204,8 +204,13 @@ def mw_get_target(next_, posargs_, target_file, target_format, spec_file, spec_f
             target_text = open(target_file).read()
         except (OSError, UnicodeError) as ose:  # (missing, unreadable or not text at all)
             raise UsageError(f'could not read target file {target_file!r}, got: {ose}')
-    elif not target_text and not isatty(sys.stdin):
+    elif not target_text and sys.stdin is not None and not isatty(sys.stdin):
         target_text = _read_stdin()
+    elif target_text:
+        try:  # (undecodable bytes in an argument arrive as lone surrogates)
+            target_text.encode('utf-8')
+        except UnicodeError as e:
+            raise UsageError(f'could not read target argument, got: {e}')
 
     target = mw_handle_target(target_text, target_format)
 
@@ -217,7 +222,8 @@ def _read_stdin():
         text = sys.stdin.read()
         # (in the C / POSIX locales undecodable bytes arrive as lone surrogates)
         text.encode('utf-8')
-    except (OSError, UnicodeError) as e:  # (unreadable or not text at all)
+    except (OSError, UnicodeError, AttributeError, ValueError) as e:
+        # (unreadable, not text at all, or no / a closed standard input)
         raise UsageError(f'could not read target from standard input, got: {e}')
     return text
 
